@@ -208,6 +208,13 @@ namespace
                 const double v = twod ? L.w->composition(L.p2[ip], d, c) : L.w->composition(L.p3[ip], d, c);
                 if (!biteq(v, al[1+c][0])) bad("composition", ip, twod);
               }
+            // compositions 2 and 3 (not in the atom alphabet; composition 2 is negative inside the oceanic plate of the 'partial' world): against a one-entry properties() call
+            for (unsigned c = 2; c < 4; ++c)
+              {
+                const double v = twod ? L.w->composition(L.p2[ip], d, c) : L.w->composition(L.p3[ip], d, c);
+                const double want = twod ? L.w->properties(L.p2[ip], d, {{{2,c,0}}})[0] : L.w->properties(L.p3[ip], d, {{{2,c,0}}})[0];
+                if (!biteq(v, want)) bad("composition", ip, twod);
+              }
             for (unsigned a = 3; a <= 5; ++a)
               {
                 const WorldBuilder::grains g = twod ? L.w->grains(L.p2[ip], d, ATOMS[a][1], ATOMS[a][2]) : L.w->grains(L.p3[ip], d, ATOMS[a][1], ATOMS[a][2]);
